@@ -16,8 +16,9 @@ import vlib
 def run(ctx):
     ctx.level = "model_checking"
     ctx.rule = ("cases = (variant std/x, key, nonce, plaintext, AD, dst arrangement, code path); TLC-evaluated: the (ptLen, adLen) boundary "
-                "grid of AEAD_Gen (asm branch boundaries 16..512 and neighbours, AD 13) with patterned inputs; amplifier: the whole boundary grid "
-                "with every dst arrangement, ptLen 0..330 (quick) / 0..1100 (thorough) x AD lengths, and random long messages up to 70000 / AD up to 600 "
+                "grid of AEAD_Gen (asm branch boundaries 16..512 and neighbours, AD 13 and 13 mod 256 with neighbours) with patterned inputs; amplifier: the whole boundary grid "
+                "with every dst arrangement, ptLen 0..330 (quick) / 0..1100 (thorough) x AD lengths 0..80, every AD length 0..1100 for 2 (quick) / 6 (thorough) plaintext lengths, "
+                "AD lengths 13+256k and neighbours, 4095..4109, 65535..65549, and random long messages up to 70000 / AD up to 600 "
                 "with random keys, judged by the Go transcription validated against the TLC vectors; distinct = distinct (path, variant, lengths, seeds)")
     ctx.assumptions = [
         "definition = spec/AEAD.tla over PrimChaCha/PrimPoly evaluated by TLC, anchored by the RFC 8439 2.3.2/2.5.2/2.8.2 and draft-xchacha 2.2.1 vectors",
